@@ -106,7 +106,7 @@ def b_second_pass(ctx):
     extra = [[100, -200, 300, -100, 200, -300, 50], [100, -200, 300, -100, 200, -300, -300], [100, -200, 100, -250, 200, 0, 200, -200],
              [0, 300, -100, 200, -300, 0], [-100, 200, -300, 300, -50], [200, -100, 300, -300, 100, 100], [100, 200, 300, -300, 0, 100],
              [100.0005, -50, 100, -80], [-100.0005, 50, -100, 80], [300, -100.001, 200, -200, 100]]   # ranges that differ by 5e-6 relative
-    ctx.bound = f"all sequences over {{-300,...,300 step 100}} with >= 2 distinct values of length 2..{maxlen} plus {len(extra)} longer hand-picked ones; each with every single insertion of a non-reversal sample; a third of the sequences also as two-point signals in 3 index layouts; extended Neuber law behind Binned"
+    ctx.bound = f"all sequences over {{-300,...,300 step 100}} with >= 2 distinct values of length 2..{maxlen} plus {len(extra)} longer hand-picked ones; each with every single insertion of a non-reversal sample; a third of the sequences also as two-point signals in 3 index layouts and with the second point loaded in the opposite direction; a third as single-level Series with other labels; extended Neuber law behind Binned"
     ctx.rule = "non-trivial: the periodic sequence has >= 2 closed cycles or the junction is not a plain reversal; distinct by (sequence, insertion)"
     ctx.exhaustive = True
     seqs = [list(s) for L in range(2, maxlen + 1) for s in itertools.product(vals, repeat=L) if len(set(s)) >= 2] + [[float(v) for v in s] for s in extra]
@@ -211,15 +211,18 @@ def b_second_pass(ctx):
         # that the junction helpers use the row order is the P obligation junction.scalar-samples
         if len(seq) <= 4 and ctx._i % 3 == 0 or len(seq) > 4:
             import pandas as pd
-            for layout in ('ascending-labels', 'gapped-labels', 'point-by-point'):
+            # ('opposite-signs': the second point carries -0.5 x the load - two sides of a bending section; the FIRST listed point decides. Added after seed C04-h
+            # took the maximum over the points as the load history that is searched for reversals)
+            for layout in ('ascending-labels', 'gapped-labels', 'point-by-point', 'opposite-signs'):
                 n = len(seq)
+                f2 = -0.5 if layout == 'opposite-signs' else 0.5
                 steps = list(range(n)) if layout != 'gapped-labels' else [10 * (k + 1) for k in range(n)]
                 if layout == 'point-by-point':
-                    sig = pd.concat({0: pd.Series(seq, index=pd.Index(steps, name='load_step')), 1: pd.Series([0.5 * v for v in seq], index=pd.Index(steps, name='load_step'))},
+                    sig = pd.concat({0: pd.Series(seq, index=pd.Index(steps, name='load_step')), 1: pd.Series([f2 * v for v in seq], index=pd.Index(steps, name='load_step'))},
                                     names=['node_id', 'load_step']).swaplevel()
                 else:
                     idx = pd.MultiIndex.from_arrays([[st for st in steps for _ in (0, 1)], [0, 1] * n], names=['load_step', 'node_id'])
-                    sig = pd.Series([v * f for v in seq for f in (1.0, 0.5)], index=idx)
+                    sig = pd.Series([v * f for v in seq for f in (1.0, f2)], index=idx)
                 import pylife.stress.rainflow.fkm_nonlinear as FNM
                 import pylife.stress.rainflow.recorders as RFR
                 rec = RFR.FKMNonlinearRecorder()
